@@ -841,7 +841,7 @@ CSTRING_HOSTS = [
 
 def params(tier):
     if tier == 'thorough':
-        return dict(w_gen=3, w_fix=3, fix_tokens_single=11000, fix_tokens_global=10 ** 9, rot=True,
+        return dict(w_gen=3, w_fix=2, fix_tokens_single=11000, fix_tokens_global=20000, rot=True,
                     pairs=True, error_hosts=None, error_all_positions=True, w_comments=2)
     return dict(w_gen=2, w_fix=2, fix_tokens_single=1300, fix_tokens_global=11000, rot=True,
                 pairs=False, error_hosts=2, error_all_positions=False, w_comments=1)
